@@ -1,5 +1,6 @@
 import SupervisorModel.Lemmas.CtlSpec
 import SupervisorModel.Lemmas.CtlFwd
+import SupervisorModel.Lemmas.CtlNames
 /-
   C20 — supervisorctl reports what the server said.
 
@@ -623,6 +624,175 @@ theorem selection_each (names : List String) (h : names.contains "all" = false) 
   · unfold stopNames; rw [if_neg h2]
   · unfold signalNames; rw [if_neg h3]
   · unfold clearNames; rw [if_neg h4]
+
+
+/-! ## a name was unknown: names the client itself resolves (`update <groups>`, `status <names>`)
+
+  For start / stop / restart / signal / clear / pid / tail / add / remove the server resolves the name and answers
+  BAD_NAME, which `refused` counts (`failure_exit_nonzero`), and every name gets its own request
+  (`selection_each`).  `update` and `status` resolve the names against the process table the server returns; the
+  theorems below say that an unknown name is reported by a line that names it and makes the exit status non-zero
+  *whatever else* the server answered -- in particular when `reloadConfig` reports no added, changed or removed
+  group at all, and when the process table is empty. -/
+
+/-- `update <names>`: a name that is neither the group of a process the server lists nor a group `reloadConfig`
+    reports as added gets the line "ERROR: no such group: <name>", and the exit status is non-zero -- for every
+    argument string, every reloadConfig answer (pending changes or none), every process table (empty or not) and
+    whatever follows in the script. -/
+theorem update_unknown_group_reported (arg url : String) (added changed removed : List String) (infos : List Info)
+    (rest : List Ans) (g : String) (hg : g ∈ validOf arg) (hk : g ∉ infos.map (·.group)) (ha : g ∉ added) :
+    ("ERROR: no such group: " ++ g) ∈
+      (protect (Action.update.run arg) (init url (.ok (.reload added changed removed) :: .ok (.infos infos) :: rest))).outs ∧
+    ((protect (Action.update.run arg) (init url (.ok (.reload added changed removed) :: .ok (.infos infos) :: rest))).err = none →
+     (protect (Action.update.run arg) (init url (.ok (.reload added changed removed) :: .ok (.infos infos) :: rest))).p.exit ≠ 0) := by
+  have hne : (validOf arg).isEmpty = false := by
+    cases h : validOf arg with
+    | nil => rw [h] at hg; cases hg
+    | cons x xs => rfl
+  let s2 : S := { p := { script := rest, calls := [⟨"reloadConfig", [], .ok (.reload added changed removed)⟩,
+    ⟨"getAllProcessInfo", [], .ok (.infos infos)⟩], url := url } }
+  have hrun : Action.update.run arg (init url (.ok (.reload added changed removed) :: .ok (.infos infos) :: rest)) =
+      updApply (validOf arg) added changed removed
+        ((validOf arg).foldl (fun s v => updNoSuch (infos.map (·.group) ++ added) v s) s2) := by
+    simp [Action.run, doUpdate, updChecked, rpc, guard, init, hne, s2]
+  have hgr : g ∉ infos.map (·.group) ++ added := by
+    intro h; rcases List.mem_append.1 h with h | h
+    · exact hk h
+    · exact ha h
+  have hfold := updNoSuch_fold (infos.map (·.group) ++ added) (validOf arg) g hg hgr s2 rfl
+  have hline : ("ERROR: no such group: " ++ g) ∈
+      (Action.update.run arg (init url (.ok (.reload added changed removed) :: .ok (.infos infos) :: rest))).outs := by
+    rw [hrun]; exact mono_updApply _ _ _ _ _ _ hfold.1
+  have hdirty : ¬ Clean (Action.update.run arg (init url (.ok (.reload added changed removed) :: .ok (.infos infos) :: rest))) := by
+    rw [hrun]; intro hc; exact hfold.2 (safe_updApply _ _ _ _ _ hc).1
+  refine ⟨outs_protect (mono_doUpdate arg) _ _ hline, fun herr h0 => hdirty ?_⟩
+  exact clean_protect (safe_doUpdate arg) _ ⟨h0, herr⟩
+
+/-- the situation of the seeded change C20-4: no configuration change is pending (`reloadConfig` answers three empty
+    lists) and a known group stands beside the unknown one -/
+example : (run "u" "update foo typo" [.ok (.reload [] [] []), .ok (.infos [⟨"foo", "foo", 20, "RUNNING", "", 5⟩])]).outs =
+      ["ERROR: no such group: typo"] ∧
+    (run "u" "update foo typo" [.ok (.reload [] [] []), .ok (.infos [⟨"foo", "foo", 20, "RUNNING", "", 5⟩])]).p.exit = 1 ∧
+    (run "u" "update typo" [.ok (.reload [] [] []), .ok (.infos [])]).p.exit = 1 ∧
+    (run "u" "update foo" [.ok (.reload [] [] []), .ok (.infos [⟨"foo", "foo", 20, "RUNNING", "", 5⟩])]).p.exit = 0 := by
+  decide
+
+-- the hypotheses of update_unknown_group_reported are satisfiable
+example : "typo" ∈ validOf "foo typo" ∧ "typo" ∉ ([⟨"foo", "foo", 20, "RUNNING", "", 5⟩] : List Info).map (·.group) := by decide
+
+/-- one step of the name loop of do_status keeps an earlier report and adds one for a name that matches nothing -/
+theorem statusName_unknown (all : List Info) (v : String) (acc : S × List Info) (h : acc.1.err = none) (msg : String) :
+    (statusName all v acc).1.err = none ∧
+    ((msg ∈ acc.1.outs ∧ acc.1.p.exit = 4) → (msg ∈ (statusName all v acc).1.outs ∧ (statusName all v acc).1.p.exit = 4)) ∧
+    (all.filter (nameMatches v) = [] →
+      msg = (if (splitNamespec v).2 = none then (splitNamespec v).1 ++ ": ERROR (no such group)" else v ++ ": ERROR (no such process)") →
+      (msg ∈ (statusName all v acc).1.outs ∧ (statusName all v acc).1.p.exit = 4)) := by
+  have hf : all.filter (statusMatches (splitNamespec v)) = all.filter (nameMatches v) := by
+    congr 1; funext i; exact statusMatches_eq v i
+  have hk : K do_status_a13 = 4 := by decide
+  unfold statusName
+  simp only [hf]
+  split
+  · rename_i he
+    have e1 := out_spec (if onPname do_status_g5 (splitNamespec v).2 = true then (splitNamespec v).1 ++ ": ERROR (no such group)"
+      else v ++ ": ERROR (no such process)") acc.1 h
+    have e2 := setExit_spec (K do_status_a13) _ e1.2.1
+    have e3 : (setExit (K do_status_a13) (out (if onPname do_status_g5 (splitNamespec v).2 = true then
+        (splitNamespec v).1 ++ ": ERROR (no such group)" else v ++ ": ERROR (no such process)") acc.1)).outs =
+        acc.1.outs ++ [if onPname do_status_g5 (splitNamespec v).2 = true then (splitNamespec v).1 ++ ": ERROR (no such group)"
+          else v ++ ": ERROR (no such process)"] := by
+      rw [← e1.1]; simp [setExit, setP, guard, e1.2.1]
+    refine ⟨e2.2, fun hp => ⟨?_, by rw [e2.1, hk]⟩, fun _ hm => ⟨?_, by rw [e2.1, hk]⟩⟩
+    · dsimp only; rw [e3]; exact List.mem_append_left _ hp.1
+    · dsimp only; rw [e3]
+      apply List.mem_append_right
+      have : (onPname do_status_g5 (splitNamespec v).2 = true) ↔ ((splitNamespec v).2 = none) := by
+        simp [onPname, do_status_g5]
+      simp only [this]
+      rw [hm]; exact List.mem_singleton.2 rfl
+  · rename_i hne
+    refine ⟨h, fun hp => hp, fun hu _ => ?_⟩
+    rw [hu] at hne; exact absurd rfl hne
+
+theorem statusSelect_unknown (all : List Info) (names : List String) (n msg : String) (acc : S × List Info)
+    (h : acc.1.err = none)
+    (hmsg : msg = (if (splitNamespec n).2 = none then (splitNamespec n).1 ++ ": ERROR (no such group)" else n ++ ": ERROR (no such process)"))
+    (hu : all.filter (nameMatches n) = [])
+    (hc : n ∈ names ∨ (msg ∈ acc.1.outs ∧ acc.1.p.exit = 4)) :
+    msg ∈ (names.foldl (fun acc v => statusName all v acc) acc).1.outs ∧
+    (names.foldl (fun acc v => statusName all v acc) acc).1.p.exit = 4 := by
+  induction names generalizing acc with
+  | nil =>
+    rcases hc with hc | hc
+    · cases hc
+    · exact hc
+  | cons v vs ih =>
+    simp only [List.foldl_cons]
+    have e := statusName_unknown all v acc h msg
+    refine ih _ e.1 ?_
+    rcases hc with hc | hc
+    · rcases List.mem_cons.1 hc with rfl | hin
+      · exact Or.inr (e.2.2 hu hmsg)
+      · exact Or.inl hin
+    · exact Or.inr (e.2.1 hc)
+
+/-- `status <names>` (without `all`): a name that matches no process of the table the server returns -- in particular
+    any name when the table is empty -- gets the line "<group>: ERROR (no such group)" (for `group:*`) or
+    "<name>: ERROR (no such process)", and the exit status is 4, or 3 when a shown process is stopped: never 0.
+    For every argument string, every process table and whatever follows in the script. -/
+theorem status_unknown_name_reported (arg url : String) (all : List Info) (rest : List Ans) (n : String)
+    (hn : n ∈ pySplit arg) (hall : (pySplit arg).contains "all" = false) (hu : all.filter (nameMatches n) = []) :
+    (if (splitNamespec n).2 = none then (splitNamespec n).1 ++ ": ERROR (no such group)" else n ++ ": ERROR (no such process)") ∈
+      (protect (Action.status.run arg) (init url (.ok (.str API_VERSION) :: .ok (.infos all) :: rest))).outs ∧
+    ((protect (Action.status.run arg) (init url (.ok (.str API_VERSION) :: .ok (.infos all) :: rest))).p.exit = 4 ∨
+     (protect (Action.status.run arg) (init url (.ok (.str API_VERSION) :: .ok (.infos all) :: rest))).p.exit = 3) := by
+  let s1 : S := { p := { script := rest, calls := [⟨"getVersion", [], .ok (.str API_VERSION)⟩,
+    ⟨"getAllProcessInfo", [], .ok (.infos all)⟩], url := url } }
+  have hnall : ¬ onNames do_status_g1 (pySplit arg) = true := by
+    have hne : (pySplit arg).isEmpty = false := by
+      cases h : pySplit arg with
+      | nil => rw [h] at hn; cases hn
+      | cons x xs => rfl
+    have hna : "all" ∉ pySplit arg := by simpa using hall
+    simp [onNames, do_status_g1, hna, hne]
+  have hrun : Action.status.run arg (init url (.ok (.str API_VERSION) :: .ok (.infos all) :: rest)) =
+      markStopped (statusSelect all (pySplit arg) s1).2
+        (showStatuses (statusSelect all (pySplit arg) s1).2 (statusSelect all (pySplit arg) s1).1) := by
+    have h0 : Action.status.run arg (init url (.ok (.str API_VERSION) :: .ok (.infos all) :: rest)) =
+        (if onNames do_status_g1 (pySplit arg) = true then markStopped all (showStatuses all s1)
+         else markStopped (statusSelect all (pySplit arg) s1).2
+                (showStatuses (statusSelect all (pySplit arg) s1).2 (statusSelect all (pySplit arg) s1).1)) := by
+      simp [Action.run, doStatus, upcheck, rpc, guard, init, s1, ctl_gen]
+    rw [h0, if_neg hnall]
+  have e0 := statusSelect_spec all (pySplit arg) (s1, []) rfl
+  have eu := statusSelect_unknown all (pySplit arg) n _ (s1, []) rfl rfl hu (Or.inl hn)
+  have esel : (statusSelect all (pySplit arg) s1).1.err = none := e0.1
+  have e1 := showStatuses_spec (statusSelect all (pySplit arg) s1).2 (statusSelect all (pySplit arg) s1).1 esel
+  have e2 := markStopped_exit (statusSelect all (pySplit arg) s1).2 _ e1.1
+  have hmono1 : Mono (showStatuses (statusSelect all (pySplit arg) s1).2) := by unfold showStatuses; exact mono_outs _
+  have hmono2 : Mono (markStopped (statusSelect all (pySplit arg) s1).2) := by
+    unfold markStopped
+    refine mono_foldl (fun (i : Info) (s : S) => if onState do_status_g6 i.state = true then setExit (K do_status_a14) s else s) (fun i => ?_) _
+    intro s l h; dsimp only; split
+    · exact mono_setExit _ s l h
+    · exact h
+  have hp : protect (Action.status.run arg) (init url (.ok (.str API_VERSION) :: .ok (.infos all) :: rest)) =
+      Action.status.run arg (init url (.ok (.str API_VERSION) :: .ok (.infos all) :: rest)) := by
+    have herr : (Action.status.run arg (init url (.ok (.str API_VERSION) :: .ok (.infos all) :: rest))).err = none := by
+      rw [hrun]; exact e2.1
+    simp only [protect, herr, net]
+  rw [hp, hrun]
+  refine ⟨hmono2 _ _ (hmono1 _ _ eu.1), ?_⟩
+  rw [e2.2]
+  split
+  · exact Or.inr rfl
+  · left; rw [e1.2]; exact eu.2
+
+-- an empty process table: every name is unknown
+example : (run "u" "status typo" [.ok (.str "3.0"), .ok (.infos [])]).outs = ["typo: ERROR (no such process)"] ∧
+    (run "u" "status typo" [.ok (.str "3.0"), .ok (.infos [])]).p.exit = 4 ∧
+    (run "u" "status a typo g:*" [.ok (.str "3.0"), .ok (.infos [⟨"a", "a", 20, "RUNNING", "", 5⟩])]).outs.take 2 =
+      ["typo: ERROR (no such process)", "g: ERROR (no such group)"] := by decide
 
 
 example : (run "u" "start g:* foo" [.ok (.str "3.0"), .ok (.results []), .ok .unit]).p.calls.map renderCall =
